@@ -1,4 +1,1208 @@
-//! C19: harness domain (stub).
+//! C19: inbound routing is exact and the connection's receiver outlives bad input.
+//!
+//! A real `Node` (started against the fake EPMD, connected to the scripted peer of peer.rs) with instrumented
+//! processes; the peer sends seeded frame histories and the harness records what every process received, which
+//! outstanding remote calls were answered, and whether the connection is still registered.
+//!
+//! Lines:
+//!   T  c19node <oracle> <world> <history>            ## <alive|stopped|hung>@<log;log;..>@<rpc;rpc;..>
+//!        the model (Impl/Receiver.lean) runs the receiver loop over the bytes of <history> on the registry <world>
+//!   P  c19spec <oracle> <world> <history> <observed> ## ok
+//!        the protocol-side oracle (Spec/Receiver.lean): who must have received what, must the connection still be there
+//!   T  c19rx <limit> <oracle> <events>               ## <result>,<result>,..
+//!        `Connection::receive_message_from_read_half` called directly over a loopback socket with a short timeout,
+//!        until the first read-level error (ties the classification of frames and the timeout semantics)
+//!   T  c19idle <limit> <history>                     ## <alive|stopped>     (thorough tier: the real idle limit of a Node)
+//!   X  c19-...                                       failures the harness sees itself
+//!
+//! world   = n=<hex node name>;p=<pid>/<pid>..;r=<hex name>:<pid>/..;c=<id>.<serial>.<creation>/..
+//! history = items separated by `/`: f<hex body> (frame), t (tick), o<len> (length prefix only, over the cap),
+//!           x<len>.<hex part> (length prefix, fewer bytes, close), e (close), q<ms> (silence)
+use crate::canon::{hex, hexarg, pid_text, term_text, unhex};
+use crate::oracle::oracle_for;
+use crate::peer::*;
+use crate::rng::Rng;
+use crate::tgen;
 use crate::Ctx;
+use edp_node::{Message, Node, Process};
+use erltf::types::{Atom, ExternalPid, ExternalReference};
+use erltf::OwnedTerm;
+use std::sync::{Arc, Mutex};
+use std::time::Duration;
+use tokio::io::AsyncWriteExt;
 
-pub fn run(_ctx: &mut Ctx) {}
+const PROBE: &str = "probe19";
+const FENCE: &str = "barrier19";
+const DIE: &str = "die19";
+const LOCAL: &str = "inner19";
+const COOKIE: &str = "c19cookie";
+const CONN_CAP: u64 = 64 * 1024 * 1024;
+
+// ---------------------------------------------------------------------------------------------------------
+// instrumented processes
+
+#[derive(Default)]
+struct Shared {
+    logs: Vec<Vec<String>>,
+    probes: Vec<bool>,
+    fences: Vec<bool>,
+    locals: Vec<Vec<i64>>,
+    rpcs: Vec<Option<String>>,
+}
+
+struct Logger {
+    idx: usize,
+    sh: Arc<Mutex<Shared>>,
+}
+
+fn atom(s: &str) -> OwnedTerm {
+    OwnedTerm::Atom(Atom::new(s))
+}
+
+fn is_atom(t: &OwnedTerm, s: &str) -> bool {
+    matches!(t, OwnedTerm::Atom(a) if a.as_str() == s)
+}
+
+fn tagged(t: &OwnedTerm, tag: &str) -> Option<i64> {
+    if let OwnedTerm::Tuple(v) = t {
+        if v.len() == 2 && is_atom(&v[0], tag) {
+            if let OwnedTerm::Integer(i) = &v[1] {
+                return Some(*i);
+            }
+        }
+    }
+    None
+}
+
+impl Process for Logger {
+    async fn handle_message(&mut self, msg: Message) -> edp_node::Result<()> {
+        let mut sh = self.sh.lock().unwrap();
+        let i = self.idx;
+        let text = match &msg {
+            Message::Regular { from, body } => {
+                if is_atom(body, DIE) {
+                    return Err(edp_node::Error::MailboxClosed);
+                }
+                if is_atom(body, FENCE) {
+                    if i < sh.fences.len() {
+                        sh.fences[i] = true;
+                    }
+                    return Ok(());
+                }
+                if let Some(k) = tagged(body, LOCAL) {
+                    if i < sh.locals.len() {
+                        sh.locals[i].push(k);
+                    }
+                    return Ok(());
+                }
+                if tagged(body, PROBE) == Some(i as i64) && i < sh.probes.len() {
+                    sh.probes[i] = true;
+                }
+                match from {
+                    None => format!("reg!{}", term_text(body)),
+                    Some(p) => format!("reg!{}!from={}", term_text(body), pid_text(p)),
+                }
+            }
+            Message::Exit { from, reason } => format!("exit!{}!{}", pid_text(from), term_text(reason)),
+            Message::MonitorExit { monitored, reference, reason } => format!(
+                "mon!{}!{}!{}",
+                pid_text(monitored),
+                term_text(&OwnedTerm::Reference(reference.clone())),
+                term_text(reason)
+            ),
+            _ => "other".to_string(),
+        };
+        if i < sh.logs.len() {
+            sh.logs[i].push(text);
+        }
+        Ok(())
+    }
+}
+
+// ---------------------------------------------------------------------------------------------------------
+// histories
+
+#[derive(Clone, Debug)]
+enum Item {
+    Frame(Vec<u8>),
+    Tick,
+    Overlong(u64),
+    Cut(u64, Vec<u8>),
+    Close,
+    Quiet(u64),
+    /// bytes that are not a whole frame (the next read then waits)
+    Raw(Vec<u8>),
+}
+
+impl Item {
+    fn text(&self) -> String {
+        match self {
+            Item::Frame(b) => format!("f{}", hex(b)),
+            Item::Tick => "t".to_string(),
+            Item::Overlong(l) => format!("o{}", l),
+            Item::Cut(l, p) => format!("x{}.{}", l, hexarg(p)),
+            Item::Close => "e".to_string(),
+            Item::Quiet(ms) => format!("q{}", ms),
+            Item::Raw(b) => format!("r{}", hex(b)),
+        }
+    }
+    fn closes(&self) -> bool {
+        matches!(self, Item::Cut(..) | Item::Close)
+    }
+}
+
+fn history_text(h: &[Item]) -> String {
+    if h.is_empty() {
+        return "-".to_string();
+    }
+    h.iter().map(|i| i.text()).collect::<Vec<_>>().join("/")
+}
+
+/// the external-call table the decoder model needs for the bodies of this history (`None`: too large, skip)
+fn history_oracle(h: &[Item]) -> Option<String> {
+    let mut entries: Vec<String> = vec![];
+    for it in h {
+        if let Item::Frame(b) = it {
+            let o = oracle_for(b)?;
+            if o != "-" {
+                entries.extend(o.split(';').map(|s| s.to_string()));
+            }
+        }
+    }
+    entries.sort();
+    entries.dedup();
+    if entries.is_empty() {
+        Some("-".to_string())
+    } else if entries.len() > 64 {
+        None
+    } else {
+        Some(entries.join(";"))
+    }
+}
+
+/// what the generator knows about the node it talks to
+#[derive(Clone)]
+struct World {
+    node_name: String,
+    peer_name: String,
+    creation: u32,
+    live: Vec<ExternalPid>,
+    names: Vec<(String, ExternalPid)>,
+    dead: Vec<ExternalPid>,
+    rpc: Vec<ExternalPid>,
+}
+
+impl World {
+    fn text(&self) -> String {
+        format!(
+            "n={};p={};r={};c={}",
+            hex(self.node_name.as_bytes()),
+            self.live.iter().map(pid_text).collect::<Vec<_>>().join("/"),
+            self.names.iter().map(|(n, p)| format!("{}:{}", hexarg(n.as_bytes()), pid_text(p))).collect::<Vec<_>>().join("/"),
+            self.rpc.iter().map(|p| format!("{}.{}.{}", p.id, p.serial, p.creation)).collect::<Vec<_>>().join("/"),
+        )
+    }
+    fn remote_pid(&self, r: &mut Rng) -> ExternalPid {
+        ExternalPid::new(Atom::new(&self.peer_name), r.range(1, 5000) as u32, r.below(4) as u32, 0x6655_4433)
+    }
+    fn ghost(&self, r: &mut Rng) -> ExternalPid {
+        // a pid of this node that was never allocated
+        ExternalPid::new(Atom::new(&self.node_name), 900_000 + r.below(1000) as u32, r.below(3) as u32, self.creation)
+    }
+    fn remote_ref(&self, r: &mut Rng) -> ExternalReference {
+        let n = r.range(1, 5) as usize;
+        ExternalReference::new(Atom::new(&self.node_name), self.creation, (0..n).map(|_| r.next() as u32 & 0x3ffff).collect())
+    }
+}
+
+/// every kind of frame event the generator knows; `ALL_KINDS` is swept position by position
+#[derive(Clone, Copy, Debug, PartialEq)]
+enum Kind {
+    SendLive,
+    SendDead,
+    SendGhost,
+    SendForeignNode,
+    SendRpc,
+    SendNoPayload,
+    SendToAtom,
+    RegLive,
+    RegUnknown,
+    RegNotAtom,
+    ExitLive,
+    ExitDead,
+    ExitFromNotPid,
+    Exit2Live,
+    SendTtLive,
+    RegSendTtLive,
+    ExitTtLive,
+    Exit2TtLive,
+    MonExitLive,
+    MonExitDead,
+    MonExitBadRef,
+    OtherKnown,
+    UnknownTag,
+    WrongArity,
+    ControlNotTuple,
+    ControlBadHead,
+    BadUnlinkId,
+    Undecodable,
+    BadPayload,
+    BadMarker,
+    Tick,
+    Overlong,
+    Cut,
+    Close,
+}
+
+const ALL_KINDS: &[Kind] = &[
+    Kind::SendLive, Kind::SendDead, Kind::SendGhost, Kind::SendForeignNode, Kind::SendRpc, Kind::SendNoPayload,
+    Kind::SendToAtom, Kind::RegLive, Kind::RegUnknown, Kind::RegNotAtom, Kind::ExitLive, Kind::ExitDead,
+    Kind::ExitFromNotPid, Kind::Exit2Live, Kind::SendTtLive, Kind::RegSendTtLive, Kind::ExitTtLive, Kind::Exit2TtLive, Kind::MonExitLive, Kind::MonExitDead, Kind::MonExitBadRef,
+    Kind::OtherKnown, Kind::UnknownTag, Kind::WrongArity, Kind::ControlNotTuple, Kind::ControlBadHead,
+    Kind::BadUnlinkId, Kind::Undecodable, Kind::BadPayload, Kind::BadMarker, Kind::Tick, Kind::Overlong,
+    Kind::Cut, Kind::Close,
+];
+
+/// the kinds that are faults or noise (one of them at every position of a base history)
+const FAULT_KINDS: &[Kind] = &[
+    Kind::SendDead, Kind::SendGhost, Kind::SendNoPayload, Kind::RegUnknown, Kind::ExitDead, Kind::MonExitDead,
+    Kind::OtherKnown, Kind::UnknownTag, Kind::WrongArity, Kind::ControlNotTuple, Kind::ControlBadHead,
+    Kind::BadUnlinkId, Kind::Undecodable, Kind::BadPayload, Kind::BadMarker, Kind::Tick, Kind::Overlong,
+    Kind::Cut, Kind::Close,
+];
+
+fn int(i: i64) -> OwnedTerm {
+    OwnedTerm::Integer(i)
+}
+fn tup(v: Vec<OwnedTerm>) -> OwnedTerm {
+    OwnedTerm::Tuple(v)
+}
+fn pidt(p: &ExternalPid) -> OwnedTerm {
+    OwnedTerm::Pid(p.clone())
+}
+
+fn payload(r: &mut Rng) -> OwnedTerm {
+    let cfg = tgen::Cfg { max_depth: 2, wf: true, maps: true, local_ids: false, huge: false, funs: false };
+    match r.below(6) {
+        0 => atom("hello"),
+        1 => tup(vec![atom("msg"), int(r.below(1000) as i64)]),
+        2 => {
+            let n = r.below(6) as usize;
+            OwnedTerm::Binary(r.bytes(n))
+        }
+        _ => tgen::gen_term(r, &cfg, 0),
+    }
+}
+
+fn pick_pid(r: &mut Rng, v: &[ExternalPid], w: &World) -> ExternalPid {
+    if v.is_empty() { w.ghost(r) } else { r.pick(v).clone() }
+}
+
+/// how often each kind was generated (input distribution for the evidence file)
+static KIND_COUNTS: Mutex<Vec<(Kind, u64)>> = Mutex::new(Vec::new());
+
+fn gen_item(r: &mut Rng, w: &World, k: Kind) -> Item {
+    {
+        let mut g = KIND_COUNTS.lock().unwrap();
+        match g.iter_mut().find(|(q, _)| *q == k) {
+            Some(e) => e.1 += 1,
+            None => g.push((k, 1)),
+        }
+    }
+    let cookie = atom("");
+    let f = |c: OwnedTerm, p: Option<OwnedTerm>| Item::Frame(pass_through(&c, p.as_ref()));
+    match k {
+        Kind::SendLive => f(tup(vec![int(2), cookie, pidt(&pick_pid(r, &w.live, w))]), Some(payload(r))),
+        Kind::SendDead => f(tup(vec![int(2), cookie, pidt(&pick_pid(r, &w.dead, w))]), Some(payload(r))),
+        Kind::SendGhost => f(tup(vec![int(2), cookie, pidt(&w.ghost(r))]), Some(payload(r))),
+        Kind::SendForeignNode => {
+            // the numbers of a live process under another node's name
+            let mut p = pick_pid(r, &w.live, w);
+            p.node = Atom::new("elsewhere@127.0.0.1");
+            f(tup(vec![int(2), cookie, pidt(&p)]), Some(payload(r)))
+        }
+        Kind::SendRpc => f(tup(vec![int(2), cookie, pidt(&pick_pid(r, &w.rpc, w))]), Some(payload(r))),
+        Kind::SendNoPayload => f(tup(vec![int(2), cookie, pidt(&pick_pid(r, &w.live, w))]), None),
+        Kind::SendToAtom => f(tup(vec![int(2), cookie, atom("srv")]), Some(payload(r))),
+        Kind::RegLive => {
+            let name = if w.names.is_empty() { "nobody".to_string() } else { r.pick(&w.names).0.clone() };
+            f(tup(vec![int(6), pidt(&w.remote_pid(r)), cookie, atom(&name)]), Some(payload(r)))
+        }
+        Kind::RegUnknown => {
+            let name = *r.pick(&["nobody", "", "rex2", "net_kernel", "global_name_server", "late"]);
+            f(tup(vec![int(6), pidt(&w.remote_pid(r)), cookie, atom(name)]), Some(payload(r)))
+        }
+        Kind::RegNotAtom => {
+            let to = if w.names.is_empty() { int(1) } else { OwnedTerm::Binary(w.names[0].0.as_bytes().to_vec()) };
+            f(tup(vec![int(6), pidt(&w.remote_pid(r)), cookie, to]), Some(payload(r)))
+        }
+        Kind::ExitLive => f(tup(vec![int(3), pidt(&w.remote_pid(r)), pidt(&pick_pid(r, &w.live, w)), payload(r)]), None),
+        Kind::ExitDead => {
+            let to = if r.chance(1, 2) { pick_pid(r, &w.dead, w) } else { w.ghost(r) };
+            f(tup(vec![int(3), pidt(&w.remote_pid(r)), pidt(&to), payload(r)]), None)
+        }
+        Kind::ExitFromNotPid => f(tup(vec![int(3), atom("someone"), pidt(&pick_pid(r, &w.live, w)), payload(r)]), None),
+        Kind::Exit2Live => f(tup(vec![int(8), pidt(&w.remote_pid(r)), pidt(&pick_pid(r, &w.live, w)), payload(r)]), None),
+        Kind::SendTtLive => f(tup(vec![int(12), cookie, pidt(&pick_pid(r, &w.live, w)), payload(r)]), Some(payload(r))),
+        Kind::RegSendTtLive => {
+            let name = if w.names.is_empty() { "nobody".to_string() } else { r.pick(&w.names).0.clone() };
+            f(tup(vec![int(16), pidt(&w.remote_pid(r)), cookie, atom(&name), payload(r)]), Some(payload(r)))
+        }
+        Kind::ExitTtLive => f(tup(vec![int(13), pidt(&w.remote_pid(r)), pidt(&pick_pid(r, &w.live, w)), payload(r), payload(r)]), None),
+        Kind::Exit2TtLive => f(tup(vec![int(18), pidt(&w.remote_pid(r)), pidt(&pick_pid(r, &w.live, w)), payload(r), payload(r)]), None),
+        Kind::MonExitLive => f(
+            tup(vec![int(21), pidt(&w.remote_pid(r)), pidt(&pick_pid(r, &w.live, w)), OwnedTerm::Reference(w.remote_ref(r)), payload(r)]),
+            None,
+        ),
+        Kind::MonExitDead => {
+            let to = if r.chance(1, 2) { pick_pid(r, &w.dead, w) } else { w.ghost(r) };
+            f(tup(vec![int(21), pidt(&w.remote_pid(r)), pidt(&to), OwnedTerm::Reference(w.remote_ref(r)), payload(r)]), None)
+        }
+        Kind::MonExitBadRef => f(
+            tup(vec![int(21), pidt(&w.remote_pid(r)), pidt(&pick_pid(r, &w.live, w)), int(7), payload(r)]),
+            None,
+        ),
+        Kind::OtherKnown => {
+            let a = pidt(&w.remote_pid(r));
+            let b = pidt(&pick_pid(r, &w.live, w));
+            let rf = OwnedTerm::Reference(w.remote_ref(r));
+            match r.below(9) {
+                0 => f(tup(vec![int(1), a, b]), None),                                     // LINK
+                1 => f(tup(vec![int(35), int(r.below(100) as i64), a, b]), None),          // UNLINK_ID
+                2 => f(tup(vec![int(36), int(r.below(100) as i64), a, b]), None),          // UNLINK_ID_ACK
+                3 => f(tup(vec![int(19), a, b, rf]), None),                                // MONITOR_P
+                4 => f(tup(vec![int(20), a, b, rf]), None),                                // DEMONITOR_P
+                5 => f(tup(vec![int(7), a, b]), None),                                     // GROUP_LEADER
+                6 => f(tup(vec![int(22), a, b]), Some(payload(r))),                        // SEND_SENDER (not negotiated)
+                7 => f(tup(vec![int(24), a, b]), Some(payload(r))),                        // PAYLOAD_EXIT (not negotiated)
+                _ => f(tup(vec![int(33), a, rf]), Some(payload(r))),                       // ALIAS_SEND
+            }
+        }
+        Kind::UnknownTag => {
+            let tag = *r.pick(&[0i64, 9, 10, 11, 14, 37, 99, 200, 255]);
+            let n = r.below(4) as usize;
+            let mut v = vec![int(tag)];
+            for _ in 0..n {
+                v.push(if r.chance(1, 2) { pidt(&pick_pid(r, &w.live, w)) } else { payload(r) });
+            }
+            f(tup(v), if r.chance(1, 2) { Some(payload(r)) } else { None })
+        }
+        Kind::WrongArity => {
+            let b = pidt(&pick_pid(r, &w.live, w));
+            match r.below(3) {
+                0 => f(tup(vec![int(2), atom(""), b, int(1)]), Some(payload(r))),
+                1 => f(tup(vec![int(3), pidt(&w.remote_pid(r)), b]), None),
+                _ => f(tup(vec![int(2)]), Some(payload(r))),
+            }
+        }
+        Kind::ControlNotTuple => {
+            let c = match r.below(4) {
+                0 => atom("send"),
+                1 => int(2),
+                2 => OwnedTerm::List(vec![int(2), atom(""), pidt(&pick_pid(r, &w.live, w))]),
+                _ => tup(vec![]),
+            };
+            f(c, if r.chance(1, 2) { Some(payload(r)) } else { None })
+        }
+        Kind::ControlBadHead => {
+            let h = match r.below(5) {
+                0 => atom("send"),
+                1 => int(256),
+                2 => int(-1),
+                3 => int(1 << 40),
+                _ => OwnedTerm::Binary(vec![2]),
+            };
+            f(tup(vec![h, atom(""), pidt(&pick_pid(r, &w.live, w))]), Some(payload(r)))
+        }
+        Kind::BadUnlinkId => {
+            let id = match r.below(3) {
+                0 => int(-1),
+                1 => atom("id"),
+                _ => OwnedTerm::BigInt(erltf::types::BigInt::new(false, vec![1, 2, 3, 4, 5, 6, 7, 8, 9])),
+            };
+            f(tup(vec![int(35), id, pidt(&w.remote_pid(r)), pidt(&pick_pid(r, &w.live, w))]), None)
+        }
+        Kind::Undecodable => {
+            let good = pass_through(&tup(vec![int(2), atom(""), pidt(&pick_pid(r, &w.live, w))]), Some(&payload(r)));
+            let body = match r.below(6) {
+                0 => vec![112],
+                1 => vec![112, 131],
+                2 => {
+                    let mut b = good.clone();
+                    b[1] = *r.pick(&[130u8, 0, 132]);
+                    b
+                }
+                3 => {
+                    // the control term cut short
+                    let n = r.range(2, 12.min(good.len() as u64 - 1)) as usize;
+                    good[..n].to_vec()
+                }
+                4 => {
+                    let mut b = vec![112, 131];
+                    let n = r.range(1, 9) as usize;
+                    b.extend(r.bytes(n));
+                    b[2] = *r.pick(&[1u8, 2, 50, 60, 255, 113]); // no such tag
+                    b
+                }
+                _ => vec![112, 131, 104, 3, 97, 2], // a 3-tuple with one element present
+            };
+            Item::Frame(body)
+        }
+        Kind::BadPayload => {
+            let mut b = pass_through(&tup(vec![int(2), atom(""), pidt(&pick_pid(r, &w.live, w))]), None);
+            match r.below(4) {
+                0 => b.extend([131u8, 255]),
+                1 => b.extend([77u8]),
+                2 => b.extend([131u8, 104, 2, 97, 1]),
+                _ => b.extend([131u8]),
+            }
+            Item::Frame(b)
+        }
+        Kind::BadMarker => {
+            let good = pass_through(&tup(vec![int(2), atom(""), pidt(&pick_pid(r, &w.live, w))]), Some(&payload(r)));
+            let body = match r.below(5) {
+                0 => vec![131, 68, 0],
+                1 => vec![0],
+                2 => {
+                    let mut b = good.clone();
+                    b[0] = *r.pick(&[111u8, 113, 131, 0, 255]);
+                    b
+                }
+                3 => good[1..].to_vec(), // marker forgotten
+                _ => {
+                    let n = r.range(1, 8) as usize;
+                    r.bytes(n).into_iter().map(|x| if x == 112 { 7 } else { x }).collect()
+                }
+            };
+            Item::Frame(body)
+        }
+        Kind::Tick => Item::Tick,
+        Kind::Overlong => Item::Overlong(*r.pick(&[CONN_CAP + 1, CONN_CAP + 2, 1 << 31, (1u64 << 32) - 1])),
+        Kind::Cut => {
+            let good = pass_through(&tup(vec![int(2), atom(""), pidt(&pick_pid(r, &w.live, w))]), Some(&payload(r)));
+            let n = r.below(good.len() as u64) as usize;
+            Item::Cut(good.len() as u64, good[..n].to_vec())
+        }
+        Kind::Close => Item::Close,
+    }
+}
+
+fn probe_item(w: &World, i: usize) -> Item {
+    Item::Frame(pass_through(
+        &tup(vec![int(2), atom(""), pidt(&w.live[i])]),
+        Some(&tup(vec![atom(PROBE), int(i as i64)])),
+    ))
+}
+
+fn item_bytes(it: &Item) -> Vec<u8> {
+    match it {
+        Item::Frame(b) => {
+            let mut v = (b.len() as u32).to_be_bytes().to_vec();
+            v.extend_from_slice(b);
+            v
+        }
+        Item::Tick => vec![0, 0, 0, 0],
+        Item::Overlong(l) => (*l as u32).to_be_bytes().to_vec(),
+        Item::Cut(l, p) => {
+            let mut v = (*l as u32).to_be_bytes().to_vec();
+            v.extend_from_slice(p);
+            v
+        }
+        Item::Raw(b) => b.clone(),
+        Item::Close | Item::Quiet(_) => vec![],
+    }
+}
+
+// ---------------------------------------------------------------------------------------------------------
+// one scenario against a real Node
+
+struct WorldSpec {
+    nlive: usize,
+    names: Vec<(String, usize)>, // name -> index of a live process
+    ndead: usize,
+    nrpc: usize,
+    local_traffic: bool,
+}
+
+fn gen_world_spec(r: &mut Rng) -> WorldSpec {
+    let nlive = r.range(1, 3) as usize;
+    let mut names = vec![];
+    let pool = ["srv", "rex", "ünï", "a", "Elixir.Srv", "x@y"];
+    let nn = r.below(3) as usize;
+    for _ in 0..nn {
+        let n = r.pick(&pool).to_string();
+        if !names.iter().any(|(m, _): &(String, usize)| *m == n) {
+            names.push((n, r.below(nlive as u64) as usize));
+        }
+    }
+    WorldSpec { nlive, names, ndead: r.below(2) as usize, nrpc: r.below(3) as usize, local_traffic: r.chance(1, 3) }
+}
+
+struct Scn {
+    node: Arc<Node>,
+    pc: PeerConn,
+    sh: Arc<Mutex<Shared>>,
+    w: World,
+    rpc_tasks: Vec<tokio::task::JoinHandle<()>>,
+}
+
+/// waits that ran into their bound so far: once a few have (the property is violated anyway), the remaining scenarios
+/// wait only briefly, so that a broken tree is reported in minutes, not hours
+static EXPIRED_WAITS: std::sync::atomic::AtomicUsize = std::sync::atomic::AtomicUsize::new(0);
+
+fn bound() -> Duration {
+    if EXPIRED_WAITS.load(std::sync::atomic::Ordering::Relaxed) >= 3 { Duration::from_millis(300) } else { Duration::from_secs(5) }
+}
+
+async fn wait_until<F: FnMut() -> bool>(mut cond: F, bound: Duration) -> bool {
+    let t0 = std::time::Instant::now();
+    loop {
+        if cond() {
+            return true;
+        }
+        if t0.elapsed() > bound {
+            EXPIRED_WAITS.fetch_add(1, std::sync::atomic::Ordering::Relaxed);
+            return false;
+        }
+        tokio::time::sleep(Duration::from_millis(1)).await;
+    }
+}
+
+async fn setup(case: usize, epmd: &FakeEpmd, spec: &WorldSpec) -> Result<Scn, String> {
+    // names without the bytes 99 (c) and 80 (P): they would look like FLOAT_EXT / COMPRESSED tags to the oracle-table scan
+    let short = format!("x19p{}", case);
+    let peer_name = format!("{}@127.0.0.1", short);
+    let node_name = format!("n19x{}@127.0.0.1", case);
+    let listener = listen_as(epmd, &short).await;
+    let pcfg = PeerCfg::new(&peer_name, COOKIE);
+    let peer = tokio::spawn(async move { accept_and_handshake(&listener, &pcfg).await });
+    let mut node = Node::new(node_name.clone(), COOKIE);
+    let t0 = std::time::Instant::now();
+    node.start(0).await.map_err(|e| format!("start: {}", e))?;
+    let d_start = t0.elapsed();
+    let node = Arc::new(node);
+    node.connect(peer_name.clone()).await.map_err(|e| format!("connect: {}", e))?;
+    if std::env::var("C19_TIMING").is_ok() {
+        eprintln!("  start {:?} connect {:?}", d_start, t0.elapsed() - d_start);
+    }
+    let mut pc = tokio::time::timeout(Duration::from_secs(5), peer)
+        .await
+        .map_err(|_| "peer timeout".to_string())?
+        .map_err(|_| "peer join".to_string())?
+        .ok_or("peer handshake".to_string())?;
+    if !pc.hs.completed {
+        return Err("handshake not completed".into());
+    }
+    let sh = Arc::new(Mutex::new(Shared::default()));
+    {
+        let mut g = sh.lock().unwrap();
+        g.logs = vec![vec![]; spec.nlive];
+        g.probes = vec![false; spec.nlive];
+        g.fences = vec![false; spec.nlive];
+        g.locals = vec![vec![]; spec.nlive];
+        g.rpcs = vec![None; spec.nrpc];
+    }
+    let mut live = vec![];
+    for i in 0..spec.nlive {
+        let pid = node.spawn(Logger { idx: i, sh: sh.clone() }).await.map_err(|e| format!("spawn: {}", e))?;
+        live.push(pid);
+    }
+    let mut names = vec![];
+    for (n, i) in &spec.names {
+        node.register(Atom::new(n), live[*i].clone()).await.map_err(|e| format!("register: {}", e))?;
+        names.push((n.clone(), live[*i].clone()));
+    }
+    let mut dead = vec![];
+    for _ in 0..spec.ndead {
+        let pid = node.spawn(Logger { idx: usize::MAX, sh: sh.clone() }).await.map_err(|e| format!("spawn: {}", e))?;
+        // a name the dead process held (released with it)
+        let _ = node.register(Atom::new("late"), pid.clone()).await;
+        node.send(&pid, atom(DIE)).await.map_err(|e| format!("die: {}", e))?;
+        let reg = node.registry();
+        let t0 = std::time::Instant::now();
+        while reg.get(&pid).await.is_some() || reg.whereis(&Atom::new("late")).await.is_some() {
+            if t0.elapsed() > Duration::from_secs(3) {
+                return Err("dead process still registered".into());
+            }
+            tokio::time::sleep(Duration::from_millis(1)).await;
+        }
+        dead.push(pid);
+    }
+    // outstanding remote calls: the peer learns the reply pid from the REG_SEND to rex
+    let mut rpc = vec![];
+    let mut rpc_tasks = vec![];
+    for k in 0..spec.nrpc {
+        let (n2, s2, pn) = (node.clone(), sh.clone(), peer_name.clone());
+        rpc_tasks.push(tokio::spawn(async move {
+            let r = n2.rpc_call_raw_with_timeout(&pn, "m", "f", vec![], Duration::from_secs(120)).await;
+            s2.lock().unwrap().rpcs[k] = Some(match r {
+                Ok(t) => format!("ok!{}", term_text(&t)),
+                Err(_) => "err".to_string(),
+            });
+        }));
+        // the library writes a frame in several small writes without TCP_NODELAY: acknowledge at once, or each
+        // request costs a delayed-ACK interval
+        #[cfg(target_os = "linux")]
+        let _ = pc.stream.set_quickack(true);
+        let frame = pc.recv_frame(Duration::from_secs(3)).await.ok_or("no rpc request frame".to_string())?;
+        if frame.first() != Some(&112) {
+            return Err("rpc request not pass-through".into());
+        }
+        let (ctl, _) = erltf::decoder::decode_with_trailing(&frame[1..]).map_err(|e| format!("rpc ctl: {}", e))?;
+        let from = match ctl {
+            OwnedTerm::Tuple(v) if v.len() == 4 => match &v[1] {
+                OwnedTerm::Pid(p) => p.clone(),
+                _ => return Err("rpc ctl from".into()),
+            },
+            _ => return Err("rpc ctl shape".into()),
+        };
+        rpc.push(from);
+    }
+    let w = World { node_name, peer_name, creation: node.creation(), live, names, dead, rpc };
+    Ok(Scn { node, pc, sh, w, rpc_tasks })
+}
+
+/// send the history, observe, tear down. Returns the observed outcome text and whether closing deregistered.
+async fn play(scn: &mut Scn, history: &[Item], local_traffic: bool) -> (String, bool) {
+    let conns = scn.node.connections();
+    let peer_name = scn.w.peer_name.clone();
+    let nlive = scn.w.live.len();
+    // local operations on the same node while the history arrives
+    let local = if local_traffic {
+        let (n2, live) = (scn.node.clone(), scn.w.live.clone());
+        Some(tokio::spawn(async move {
+            for k in 0..6i64 {
+                for p in &live {
+                    let _ = n2.send(p, tup(vec![atom(LOCAL), int(k)])).await;
+                }
+                if let Ok(extra) = n2.spawn(Logger { idx: usize::MAX, sh: Arc::new(Mutex::new(Shared::default())) }).await {
+                    let _ = n2.register(Atom::new(format!("extra19_{}", k)), extra.clone()).await;
+                    let _ = n2.send(&extra, atom(DIE)).await;
+                }
+                tokio::task::yield_now().await;
+            }
+        }))
+    } else {
+        None
+    };
+    let mut closed = false;
+    for it in history {
+        match it {
+            Item::Quiet(ms) => tokio::time::sleep(Duration::from_millis(*ms)).await,
+            Item::Close => {}
+            _ => {
+                let b = item_bytes(it);
+                let _ = scn.pc.stream.write_all(&b).await;
+                let _ = scn.pc.stream.flush().await;
+            }
+        }
+        if it.closes() {
+            let _ = scn.pc.stream.shutdown().await;
+            closed = true;
+            break;
+        }
+        if local_traffic {
+            tokio::task::yield_now().await;
+        }
+    }
+    if let Some(l) = local {
+        let _ = l.await;
+    }
+    // wait until every probe has arrived or the connection is gone
+    let sh = scn.sh.clone();
+    let (c2, pn2) = (conns.clone(), peer_name.clone());
+    wait_until(
+        || !c2.contains_key(&pn2) || (!closed && sh.lock().unwrap().probes.iter().all(|b| *b)),
+        bound(),
+    )
+    .await;
+    let registered = conns.contains_key(&peer_name);
+    let probes_seen = scn.sh.lock().unwrap().probes.iter().all(|b| *b);
+    // fence: a local message behind everything the receiver has put into the mailboxes
+    for p in &scn.w.live {
+        let _ = scn.node.send(p, atom(FENCE)).await;
+    }
+    let sh = scn.sh.clone();
+    let fenced = wait_until(|| sh.lock().unwrap().fences.iter().all(|b| *b), bound()).await;
+    for _ in 0..20 {
+        tokio::task::yield_now().await;
+    }
+    tokio::time::sleep(Duration::from_millis(2)).await;
+    let status = if !registered {
+        "stopped"
+    } else if probes_seen && !closed && fenced {
+        "alive"
+    } else {
+        "hung"
+    };
+    let (logs, rpcs, locals_ok) = {
+        let g = scn.sh.lock().unwrap();
+        let logs: Vec<String> = g.logs.iter().map(|l| if l.is_empty() { "-".to_string() } else { l.join("/") }).collect();
+        let rpcs: Vec<String> = g.rpcs.iter().map(|r| r.clone().unwrap_or("-".to_string())).collect();
+        let locals_ok = !local_traffic || g.locals.iter().all(|l| *l == (0..6).collect::<Vec<i64>>());
+        (logs, rpcs, locals_ok)
+    };
+    let _ = nlive;
+    let observed = format!(
+        "{}@{}@{}{}",
+        status,
+        logs.join(";"),
+        if rpcs.is_empty() { "-".to_string() } else { rpcs.join(";") },
+        if locals_ok { "" } else { "@local-messages-lost-or-reordered" }
+    );
+    // the peer closes: the receiver must stop and the connection must be deregistered
+    if !closed {
+        let _ = scn.pc.stream.shutdown().await;
+    }
+    let (c3, pn3) = (conns.clone(), peer_name.clone());
+    let dereg = wait_until(|| !c3.contains_key(&pn3), bound()).await;
+    for t in &scn.rpc_tasks {
+        t.abort();
+    }
+    (observed, dereg)
+}
+
+fn with_probes(w: &World, mut h: Vec<Item>) -> Vec<Item> {
+    if !h.iter().any(|i| i.closes()) {
+        for i in 0..w.live.len() {
+            h.push(probe_item(w, i));
+        }
+    }
+    h
+}
+
+struct Prepared {
+    scn: Scn,
+    h: Vec<Item>,
+    oracle: String,
+    local_traffic: bool,
+}
+
+async fn prepare<G: FnOnce(&mut Rng, &World) -> Vec<Item>>(ctx: &mut Ctx, epmd: &FakeEpmd, case: &mut usize, spec: &WorldSpec, generate: G) -> Option<Prepared> {
+    *case += 1;
+    let scn = match setup(*case, epmd, spec).await {
+        Ok(s) => s,
+        Err(e1) => {
+            // once more with fresh names before it counts
+            ctx.count("setup_retried");
+            *case += 1;
+            match setup(*case, epmd, spec).await {
+                Ok(s) => s,
+                Err(e) => {
+                    ctx.fail("c19-setup", &format!("case={} {} (first attempt: {})", case, e, e1));
+                    return None;
+                }
+            }
+        }
+    };
+    let mut h = with_probes(&scn.w, generate(&mut ctx.rng, &scn.w));
+    let mut tries = 0;
+    // a history whose external-call table would be too large is replaced by a plain one
+    let oracle = loop {
+        match history_oracle(&h) {
+            Some(o) => break o,
+            None => {
+                tries += 1;
+                ctx.count("history_replaced_oracle_too_large");
+                let w = scn.w.clone();
+                h = with_probes(&w, vec![Item::Tick]);
+                if tries > 2 {
+                    break "-".to_string();
+                }
+            }
+        }
+    };
+    for it in &h {
+        ctx.count(match it {
+            Item::Frame(_) => "item_frame",
+            Item::Tick => "item_tick",
+            Item::Overlong(_) => "item_overlong",
+            Item::Cut(..) => "item_cut",
+            Item::Close => "item_close",
+            Item::Quiet(_) => "item_quiet",
+            Item::Raw(_) => "item_raw",
+        });
+    }
+    ctx.count(&format!("world_live{}", spec.nlive));
+    ctx.count(&format!("world_names{}", spec.names.len()));
+    ctx.count(&format!("world_dead{}", spec.ndead));
+    ctx.count(&format!("world_calls{}", spec.nrpc));
+    if spec.local_traffic {
+        ctx.count("with_local_traffic");
+    }
+    Some(Prepared { scn, h, oracle, local_traffic: spec.local_traffic })
+}
+
+fn report(ctx: &mut Ctx, tag: &str, p: &Prepared, observed: &str, dereg: bool) {
+    let wt = p.scn.w.text();
+    let ht = history_text(&p.h);
+    ctx.count(&format!("observed_{}", observed.split('@').next().unwrap_or("")));
+    ctx.tie(tag, &format!("c19node {} {} {}", p.oracle, wt, ht), observed);
+    ctx.prop(tag, &format!("c19spec {} {} {} {}", p.oracle, wt, ht, observed), "ok");
+    if !dereg {
+        ctx.fail("c19-close-not-deregistered", &format!("world={} history={}", wt, ht));
+    }
+}
+
+async fn scenario<G: FnOnce(&mut Rng, &World) -> Vec<Item>>(ctx: &mut Ctx, epmd: &FakeEpmd, case: &mut usize, tag: &str, spec: WorldSpec, generate: G) {
+    let t_setup = std::time::Instant::now();
+    let Some(mut p) = prepare(ctx, epmd, case, &spec, generate).await else { return };
+    let d_setup = t_setup.elapsed();
+    let t_play = std::time::Instant::now();
+    let h = p.h.clone();
+    let (observed, dereg) = play(&mut p.scn, &h, p.local_traffic).await;
+    if std::env::var("C19_TIMING").is_ok() {
+        eprintln!("case {} setup {:?} play {:?} {}", case, d_setup, t_play.elapsed(), observed.split('@').next().unwrap_or(""));
+    }
+    report(ctx, tag, &p, &observed, dereg);
+}
+
+/// the real idle limit of a Node's receiver (thorough tier): silences of the length of a peer's tick interval with ticks
+/// in between, a silence just below the limit, one above it, and a peer that stops inside a frame. Run concurrently.
+async fn timed_scenarios(ctx: &mut Ctx, epmd: &FakeEpmd, case: &mut usize) {
+    let mk_spec = || WorldSpec { nlive: 1, names: vec![], ndead: 0, nrpc: 0, local_traffic: false };
+    let mut prepared = vec![];
+    for which in 0..4 {
+        let spec = mk_spec();
+        let p = prepare(ctx, epmd, case, &spec, |r, w| match which {
+            0 => vec![Item::Quiet(16_000), Item::Tick, Item::Quiet(16_000), Item::Tick, gen_item(r, w, Kind::SendLive)],
+            1 => vec![gen_item(r, w, Kind::SendLive), Item::Quiet(50_000), gen_item(r, w, Kind::SendLive)],
+            2 => vec![gen_item(r, w, Kind::SendLive), Item::Quiet(76_000)],
+            _ => {
+                let full = item_bytes(&gen_item(r, w, Kind::SendLive));
+                vec![gen_item(r, w, Kind::SendLive), Item::Raw(full[..full.len() - 3].to_vec()), Item::Quiet(76_000)]
+            }
+        })
+        .await;
+        if let Some(p) = p {
+            prepared.push(p);
+        }
+    }
+    let mut handles = vec![];
+    for mut p in prepared {
+        handles.push(tokio::spawn(async move {
+            let h = p.h.clone();
+            let r = play(&mut p.scn, &h, false).await;
+            (p, r)
+        }));
+    }
+    for h in handles {
+        match h.await {
+            Ok((p, (observed, dereg))) => report(ctx, "idle", &p, &observed, dereg),
+            Err(_) => ctx.fail("c19-timed-panicked", "a timed scenario panicked"),
+        }
+    }
+}
+
+// ---------------------------------------------------------------------------------------------------------
+// direct calls of receive_message_from_read_half (classification of frames, timeout semantics)
+
+#[derive(Clone, Debug)]
+enum RxEv {
+    Chunk(Vec<u8>),
+    Quiet(u64),
+    Close,
+}
+
+fn rx_text(evs: &[RxEv]) -> String {
+    evs.iter()
+        .map(|e| match e {
+            RxEv::Chunk(b) => format!("c{}", hex(b)),
+            RxEv::Quiet(ms) => format!("q{}", ms),
+            RxEv::Close => "e".to_string(),
+        })
+        .collect::<Vec<_>>()
+        .join(",")
+}
+
+fn rx_class(e: &edp_client::Error) -> (&'static str, bool) {
+    use edp_client::Error as E;
+    match e {
+        E::Io(io) if io.kind() == std::io::ErrorKind::UnexpectedEof => ("err-eof", true),
+        E::Io(_) => ("err-io", true),
+        E::Timeout(_) => ("err-timeout", true),
+        E::MessageTooLarge { .. } => ("err-toolarge", true),
+        E::InvalidStateMessage(_) => ("err-empty", false),
+        E::Protocol(_) => ("err-marker", false),
+        E::Decode(_) => ("err-decode", false),
+        E::InvalidControlMessage(_) => ("err-control", false),
+        _ => ("err-other", true),
+    }
+}
+
+async fn run_rx(evs: Vec<RxEv>, limit: Duration) -> Option<Vec<String>> {
+    let listener = tokio::net::TcpListener::bind("127.0.0.1:0").await.ok()?;
+    let addr = listener.local_addr().ok()?;
+    let (client, server) = tokio::join!(tokio::net::TcpStream::connect(addr), listener.accept());
+    let (mut server, _) = server.ok()?;
+    server.set_nodelay(true).ok()?;
+    let (mut rh, _wh) = client.ok()?.into_split();
+    let writer = async move {
+        for e in evs {
+            match e {
+                RxEv::Chunk(b) => {
+                    if server.write_all(&b).await.is_err() {
+                        break;
+                    }
+                    let _ = server.flush().await;
+                }
+                RxEv::Quiet(ms) => tokio::time::sleep(Duration::from_millis(ms)).await,
+                RxEv::Close => {
+                    let _ = server.shutdown().await;
+                    return server;
+                }
+            }
+        }
+        // no close in the script: the socket stays open until the reader has given up
+        server
+    };
+    let reader = async {
+        let mut out = vec![];
+        for _ in 0..10_000 {
+            match edp_client::Connection::receive_message_from_read_half(&mut rh, limit).await {
+                Ok((c, p)) => out.push(format!(
+                    "ok!{}!{}",
+                    term_text(&c.to_term()),
+                    p.as_ref().map(term_text).unwrap_or("-".to_string())
+                )),
+                Err(e) => {
+                    let (cls, terminal) = rx_class(&e);
+                    out.push(cls.to_string());
+                    if terminal {
+                        return out;
+                    }
+                }
+            }
+        }
+        out.push("no-termination".to_string());
+        out
+    };
+    let (out, _server) = tokio::join!(reader, writer);
+    Some(out)
+}
+
+fn rx_oracle(evs: &[RxEv]) -> Option<String> {
+    // chunks are whole frames or pieces of one frame: scan the concatenation frame by frame
+    let mut all = vec![];
+    for e in evs {
+        if let RxEv::Chunk(b) = e {
+            all.extend_from_slice(b);
+        }
+    }
+    let mut items = vec![];
+    let mut i = 0;
+    while i + 4 <= all.len() {
+        let n = u32::from_be_bytes([all[i], all[i + 1], all[i + 2], all[i + 3]]) as usize;
+        if n == 0 {
+            i += 4;
+            continue;
+        }
+        if i + 4 + n > all.len() {
+            break;
+        }
+        items.push(Item::Frame(all[i + 4..i + 4 + n].to_vec()));
+        i += 4 + n;
+    }
+    history_oracle(&items)
+}
+
+fn rx_world() -> World {
+    let node = "rx19@127.0.0.1".to_string();
+    let mk = |id: u32| ExternalPid::new(Atom::new(&node), id, 0, 3);
+    World {
+        node_name: node.clone(),
+        peer_name: "rx19peer@127.0.0.1".to_string(),
+        creation: 3,
+        live: vec![mk(1), mk(2)],
+        names: vec![("srv".to_string(), mk(1))],
+        dead: vec![mk(3)],
+        rpc: vec![mk(4)],
+    }
+}
+
+async fn rx_cases(ctx: &mut Ctx) {
+    if run_rx(vec![RxEv::Close], Duration::from_millis(500)).await.is_none() {
+        ctx.count("rx_skipped_no_loopback");
+        return;
+    }
+    let w = rx_world();
+    // far from every silence in the scripts: the short ones are a twentieth of it, the long ones more than twice
+    const LIMIT: u64 = 2000;
+    let mut scripts: Vec<(String, Vec<RxEv>)> = vec![];
+    // every kind once, then a clean close
+    for &k in ALL_KINDS {
+        let it = gen_item(&mut ctx.rng, &w, k);
+        let mut evs = vec![RxEv::Chunk(item_bytes(&it))];
+        if !it.closes() {
+            evs.push(RxEv::Chunk(item_bytes(&gen_item(&mut ctx.rng, &w, Kind::SendLive))));
+        }
+        evs.push(RxEv::Close);
+        scripts.push((format!("kind_{:?}", k), evs));
+    }
+    // mixed streams, split at arbitrary points, short silences in between (far below the limit)
+    let n = ctx.n(40, 300);
+    for _ in 0..n {
+        let m = ctx.rng.range(1, 6) as usize;
+        let mut bytes = vec![];
+        for _ in 0..m {
+            let k = *ctx.rng.pick(ALL_KINDS);
+            let it = gen_item(&mut ctx.rng, &w, k);
+            bytes.extend(item_bytes(&it));
+            if it.closes() || matches!(it, Item::Overlong(_)) {
+                break;
+            }
+        }
+        let mut evs = vec![];
+        let mut i = 0;
+        while i < bytes.len() {
+            let step = if ctx.rng.chance(1, 2) { bytes.len() - i } else { ctx.rng.range(1, (bytes.len() - i) as u64) as usize };
+            evs.push(RxEv::Chunk(bytes[i..i + step].to_vec()));
+            i += step;
+            if ctx.rng.chance(1, 6) {
+                evs.push(RxEv::Quiet(ctx.rng.range(1, 15)));
+            }
+        }
+        evs.push(RxEv::Close);
+        scripts.push(("mixed".to_string(), evs));
+    }
+    // time: silences below the limit with ticks in between are survived; a silence above it is a timeout,
+    // at a frame boundary and inside a frame
+    let good = |r: &mut Rng| item_bytes(&gen_item(r, &w, Kind::SendLive));
+    let tick = vec![0u8, 0, 0, 0];
+    let short = LIMIT / 20;
+    let long = LIMIT * 2 + 500;
+    let g1 = good(&mut ctx.rng);
+    let g2 = good(&mut ctx.rng);
+    let timed: Vec<Vec<RxEv>> = vec![
+        vec![RxEv::Quiet(short), RxEv::Chunk(tick.clone()), RxEv::Quiet(short), RxEv::Chunk(tick.clone()), RxEv::Quiet(short), RxEv::Chunk(g1.clone()), RxEv::Close],
+        vec![RxEv::Chunk(g1.clone()), RxEv::Quiet(long), RxEv::Chunk(g2.clone()), RxEv::Close],
+        vec![RxEv::Quiet(short), RxEv::Chunk(tick.clone()), RxEv::Quiet(long), RxEv::Chunk(g2.clone()), RxEv::Close],
+        vec![RxEv::Chunk(g1[..6].to_vec()), RxEv::Quiet(long), RxEv::Chunk(g1[6..].to_vec()), RxEv::Close],
+        vec![RxEv::Chunk(g1[..2].to_vec()), RxEv::Quiet(long), RxEv::Chunk(g1[2..].to_vec()), RxEv::Close],
+        vec![RxEv::Chunk(g1[..6].to_vec()), RxEv::Quiet(short), RxEv::Chunk(g1[6..].to_vec()), RxEv::Quiet(short), RxEv::Chunk(g2.clone()), RxEv::Close],
+    ];
+    for t in timed {
+        scripts.push(("timed".to_string(), t));
+    }
+    // run them concurrently (the timed ones cost seconds)
+    let mut handles = vec![];
+    for (tag, evs) in scripts {
+        let e2 = evs.clone();
+        handles.push((tag, evs, tokio::spawn(run_rx(e2, Duration::from_millis(LIMIT)))));
+    }
+    for (tag, evs, h) in handles {
+        let out = match h.await {
+            Ok(Some(o)) => o,
+            Ok(None) => {
+                ctx.count("rx_skipped_no_loopback");
+                continue;
+            }
+            Err(_) => vec!["panic".to_string()],
+        };
+        let Some(oracle) = rx_oracle(&evs) else {
+            ctx.count("rx_skipped_oracle_too_large");
+            continue;
+        };
+        ctx.count(&format!("rx_{}", tag));
+        for o in &out {
+            ctx.count(&format!("rx_result_{}", o.split('!').next().unwrap_or("")));
+        }
+        ctx.tie("rx", &format!("c19rx {} {} {}", LIMIT, oracle, rx_text(&evs)), &out.join(","));
+    }
+}
+
+// ---------------------------------------------------------------------------------------------------------
+
+pub fn run(ctx: &mut Ctx) {
+    let rt = tokio::runtime::Builder::new_current_thread().enable_all().build().unwrap();
+    rt.block_on(async {
+        let epmd = FakeEpmd::start().await;
+        let mut case = 0usize;
+        // 0. in the background for the whole run: a connection whose peer is silent for longer than the connect timeout
+        //    (10 s) and then ticks must still be there (the full-length silences are in the thorough tier)
+        let spec = WorldSpec { nlive: 1, names: vec![], ndead: 0, nrpc: 0, local_traffic: false };
+        let quiet_bg = match prepare(ctx, &epmd, &mut case, &spec, |_, _| vec![Item::Quiet(11_000), Item::Tick]).await {
+            Some(mut p) => Some(tokio::spawn(async move {
+                let h = p.h.clone();
+                let r = play(&mut p.scn, &h, false).await;
+                (p, r)
+            })),
+            None => None,
+        };
+        // direct calls of receive_message_from_read_half (a few seconds of real waiting, overlapped with the above)
+        rx_cases(ctx).await;
+        // 1. every kind alone
+        for &k in ALL_KINDS {
+            let spec = WorldSpec { nlive: 2, names: vec![("srv".into(), 0), ("rex".into(), 1)], ndead: 1, nrpc: 1, local_traffic: false };
+            scenario(ctx, &epmd, &mut case, "single", spec, |r, w| vec![gen_item(r, w, k)]).await;
+        }
+        // 2. one fault kind at every position of a short base history of deliverable messages
+        let base_kinds = [Kind::SendLive, Kind::RegLive, Kind::ExitLive, Kind::MonExitLive, Kind::SendRpc, Kind::SendLive];
+        let base_len = if ctx.thorough { 4 } else { 3 };
+        let faults: Vec<Kind> = if ctx.thorough {
+            FAULT_KINDS.to_vec()
+        } else {
+            // quick tier: every fault kind at one position (rotating), the stopping ones at every position
+            FAULT_KINDS.to_vec()
+        };
+        for (fi, &fk) in faults.iter().enumerate() {
+            for pos in 0..=base_len {
+                let stopping = matches!(fk, Kind::Overlong | Kind::Cut | Kind::Close);
+                let errs = matches!(fk, Kind::ControlNotTuple | Kind::ControlBadHead | Kind::BadUnlinkId | Kind::Undecodable | Kind::BadPayload | Kind::BadMarker);
+                if !ctx.thorough && !stopping && !errs && pos != fi % (base_len + 1) {
+                    continue;
+                }
+                let spec = WorldSpec { nlive: 2, names: vec![("srv".into(), 1)], ndead: 1, nrpc: 1, local_traffic: false };
+                scenario(ctx, &epmd, &mut case, "sweep", spec, |r, w| {
+                    let mut h = vec![];
+                    for j in 0..=base_len {
+                        if j == pos {
+                            h.push(gen_item(r, w, fk));
+                        }
+                        if j < base_len {
+                            h.push(gen_item(r, w, base_kinds[(j + fi) % base_kinds.len()]));
+                        }
+                    }
+                    h
+                })
+                .await;
+            }
+        }
+        // 3. random histories over random worlds
+        let n = ctx.n(60, 600);
+        for _ in 0..n {
+            let spec = gen_world_spec(&mut ctx.rng);
+            scenario(ctx, &epmd, &mut case, "random", spec, |r, w| {
+                let m = r.range(0, 8) as usize;
+                let mut h = vec![];
+                for _ in 0..m {
+                    // the stopping kinds are rarer, so that long histories stay alive
+                    let k = if r.chance(1, 12) {
+                        *r.pick(&[Kind::Overlong, Kind::Cut, Kind::Close])
+                    } else if r.chance(1, 8) {
+                        Kind::Tick
+                    } else {
+                        *r.pick(&ALL_KINDS[..ALL_KINDS.len() - 3])
+                    };
+                    h.push(gen_item(r, w, k));
+                }
+                h
+            })
+            .await;
+        }
+        if let Some(h) = quiet_bg {
+            match h.await {
+                Ok((p, (observed, dereg))) => report(ctx, "idle", &p, &observed, dereg),
+                Err(_) => ctx.fail("c19-timed-panicked", "the background idle scenario panicked"),
+            }
+        }
+        if ctx.thorough || std::env::var("C19_IDLE").is_ok() {
+            timed_scenarios(ctx, &epmd, &mut case).await;
+        }
+        ctx.add("scenarios", case as u64);
+        for (k, n) in KIND_COUNTS.lock().unwrap().iter() {
+            ctx.add(&format!("kind_{:?}", k), *n);
+        }
+    });
+    let _ = unhex;
+}
